@@ -167,6 +167,8 @@ def gen_scenario(seed, mode, thorough, golden):
         if rng.random() < 0.3:
             pr["after"] = {"event": rng.choice(TRIGGER_CLASSES), "delay": round(rng.choice([0.0, 0.01, 0.1, 0.5]), 3)}
     scn = {"seed": seed, "mode": mode, "procs": procs, "pre": [], "faults": [], "stretch": [], "late": []}
+    if rng.random() < 0.3:
+        scn["cache_spelling"] = {str(pr["name"]): rng.choice(["symlink", "relative", "abs"]) for pr in procs}
     if rng.random() < 0.4:
         # a file system with 2 s time stamps, or NFS with a 60 s attribute cache
         scn["coarse_mtime"] = rng.choice([2, 60])
@@ -212,6 +214,10 @@ def gen_scenario(seed, mode, thorough, golden):
             else:
                 tp = rng.choice(procs)
                 f.update(proc=tp["name"], at=rng.randrange(0, gseams + 1))
+            if f["proc"] != "holder" and len(tp["requests"]) > 1 and rng.random() < 0.5:
+                f["req_index"] = 1  # the fault hits the second request of that process
+            if kind == "interrupt" and rng.random() < 0.3:
+                f["exc"] = "SystemExit"
             if kind == "stall":
                 f["dur"] = round(rng.uniform(5, 60), 2)
         elif kind == "lock-eacces":
@@ -358,6 +364,10 @@ def _transforms(scn):
         s = copy.deepcopy(scn)
         del s["pre"][i]
         yield f"drop pre {i}", s
+    if scn.get("cache_spelling"):
+        s = copy.deepcopy(scn)
+        del s["cache_spelling"]
+        yield "absolute cache paths", s
     if scn.get("coarse_mtime"):
         s = copy.deepcopy(scn)
         del s["coarse_mtime"]
